@@ -29,6 +29,7 @@ type Gen struct {
 	typeIDs   map[string]int
 	fresh     int
 	autoAxioms []string
+	constGlob  map[string]*ssa.Const
 	axiomSeen map[string]bool
 }
 
@@ -73,6 +74,11 @@ func (g *Gen) strLit(s string) *Term {
 
 func (g *Gen) autoFun(name string, ret Sort, args ...Sort) string {
 	name = smtName(name)
+	if g.spec != nil {
+		if _, declared := g.spec.Funs[name]; declared {
+			return name
+		}
+	}
 	if _, ok := g.autoFuns[name]; !ok {
 		g.autoFuns[name] = &FunDecl{Name: name, Args: args, Ret: ret}
 		g.autoOrder = append(g.autoOrder, name)
@@ -321,4 +327,86 @@ func (g *Gen) addAutoAxiom(key, smt string) {
 	}
 	g.axiomSeen[key] = true
 	g.autoAxioms = append(g.autoAxioms, smt)
+}
+
+// lookupType finds a named type by "pkgname.Type" among all loaded packages.
+func (g *Gen) lookupType(name string) types.Type {
+	i := strings.LastIndex(name, ".")
+	if i < 0 {
+		if m, ok := g.pkg.Members[name]; ok {
+			if t, ok := m.(*ssa.Type); ok {
+				return t.Type()
+			}
+		}
+		return nil
+	}
+	pn, tn := name[:i], name[i+1:]
+	for _, p := range g.prog.AllPackages() {
+		if p.Pkg.Name() == pn || p.Pkg.Path() == pn {
+			if m, ok := p.Members[tn]; ok {
+				if t, ok := m.(*ssa.Type); ok {
+					return t.Type()
+				}
+			}
+		}
+	}
+	return nil
+}
+
+// constGlobals: package-level variables of package main that are initialised with a constant and never
+// stored to by any function of the package. Their value is a package invariant (checked syntactically on
+// every run) and is assumed at the entry of every function under contract.
+func (g *Gen) constGlobals() map[string]*ssa.Const {
+	if g.constGlob != nil {
+		return g.constGlob
+	}
+	out := map[string]*ssa.Const{}
+	stored := map[string]bool{}
+	var visit func(fn *ssa.Function, isInit bool)
+	visit = func(fn *ssa.Function, isInit bool) {
+		if fn == nil || fn.Blocks == nil {
+			return
+		}
+		for _, b := range fn.Blocks {
+			for _, in := range b.Instrs {
+				st, ok := in.(*ssa.Store)
+				if !ok {
+					continue
+				}
+				gv, ok := st.Addr.(*ssa.Global)
+				if !ok || gv.Pkg != g.pkg {
+					continue
+				}
+				if c, isConst := st.Val.(*ssa.Const); isConst && isInit {
+					if _, dup := out[gv.Name()]; dup {
+						stored[gv.Name()] = true
+					}
+					out[gv.Name()] = c
+				} else {
+					stored[gv.Name()] = true
+				}
+			}
+		}
+		for _, a := range fn.AnonFuncs {
+			visit(a, false)
+		}
+	}
+	for _, m := range g.pkg.Members {
+		switch m := m.(type) {
+		case *ssa.Function:
+			visit(m, m.Name() == "init")
+		case *ssa.Type:
+			for _, t := range []types.Type{m.Type(), types.NewPointer(m.Type())} {
+				ms := g.prog.MethodSets.MethodSet(t)
+				for i := 0; i < ms.Len(); i++ {
+					visit(g.prog.MethodValue(ms.At(i)), false)
+				}
+			}
+		}
+	}
+	for n := range stored {
+		delete(out, n)
+	}
+	g.constGlob = out
+	return out
 }
